@@ -6,12 +6,15 @@ open Okane Okane.Literal Okane.ExprSyntax Okane.Spec
 open Okane.Unparse (wfNumber isCommodityText noPrec wfVExpr wfAdd wfMul wfUnary)
 
 /-!
-# What the value-expression parser can return (the image of `value_expr`)
+# What the value-expression parser can return (the image of `value_expr`); necessity of the follow condition
 
 For EVERY input and fuel: a tree returned by `value_expr` is the image of a stratified tree (`ValueE.toVExpr`) — `*`
 and `/` never have a bare sum as operand, the right operand of every operator is one level down, negation applies to
 a value — and it is plain (`plainV`: no negative literal as an un-negated operand).  Together with the round trip of
 `Lemmas/ExprParse.lean` this pins the parser's precedence and associativity down from both sides.
+
+Also here: the condition `follow` on the continuation is necessary (`follow_necessary`, `parse_print_iff`), and rescaling
+to declared precisions keeps plainness (`plainV_rescale`).
 -/
 
 /-! ## the sign of a scanned number comes from a leading `-` only -/
@@ -257,5 +260,173 @@ theorem parseValueExpr_image {inp rest : List Char} {v : VExpr} (h : parseValueE
     (∃ t : ValueE, ofVExpr v = some t ∧ t.toVExpr = v) ∧ plainV v = true := by
   obtain ⟨⟨t, rfl⟩, hp⟩ := valueExpr_image h
   exact ⟨⟨t, ofVExpr_toVExpr t, rfl⟩, hp⟩
+
+/-! ## the condition on the continuation is necessary: `follow` is exactly what the parser needs -/
+
+theorem dropWhile_append_all {p : Char → Bool} {a : List Char} (ha : ∀ c ∈ a, p c = true) (X : List Char) :
+    (a ++ X).dropWhile p = X.dropWhile p := by
+  induction a with
+  | nil => rfl
+  | cons c a ih =>
+    simp only [List.cons_append, List.dropWhile, ha c (by simp)]
+    exact ih (fun x hx => ha x (by simp [hx]))
+
+theorem takeWhile_append_all {p : Char → Bool} {a : List Char} (ha : ∀ c ∈ a, p c = true) (X : List Char) :
+    (a ++ X).takeWhile p = a ++ X.takeWhile p := by
+  induction a with
+  | nil => rfl
+  | cons c a ih =>
+    simp only [List.cons_append, List.takeWhile, ha c (by simp)]
+    rw [ih (fun x hx => ha x (by simp [hx]))]
+
+theorem length_dropWhile_le (p : Char → Bool) (l : List Char) : (l.dropWhile p).length ≤ l.length := by
+  induction l with
+  | nil => simp
+  | cons c t ih =>
+    simp only [List.dropWhile]
+    split
+    · simp only [List.length_cons]; omega
+    · simp
+
+theorem stops_of_dropWhile_eq {p : Char → Bool} {l : List Char} (h : l.dropWhile p = l) : stops p l = true := by
+  cases l with
+  | nil => rfl
+  | cons c t =>
+    cases hc : p c with
+    | false => simp [hc]
+    | true =>
+      simp only [List.dropWhile, hc] at h
+      have := length_dropWhile_le p t
+      rw [h] at this
+      simp only [List.length_cons] at this
+      omega
+
+/-- the token `pretty_decimal` cuts off a text that begins with an accepted literal, whatever follows -/
+theorem tokenSplit_shape_any {s : List Char} (hs : TokenShape s) (X : List Char) :
+    tokenSplit (s ++ X) = .ok (s ++ X.takeWhile isNumChar, X.dropWhile isNumChar) := by
+  rcases hs with ⟨body, rfl, hne, hall⟩ | ⟨hne, hall⟩
+  · have h1 := takeWhile_append_all hall X
+    have h2 := dropWhile_append_all hall X
+    cases body with
+    | nil => exact absurd rfl hne
+    | cons b t =>
+      simp only [List.cons_append] at h1 h2
+      simp [tokenSplit, h1, h2]
+  · cases s with
+    | nil => exact absurd rfl hne
+    | cons b t =>
+      have hb : b ≠ '-' := numChar_ne_minus (hall b (by simp))
+      have h1 := takeWhile_append_all hall X
+      have h2 := dropWhile_append_all hall X
+      simp only [List.cons_append] at h1 h2 ⊢
+      simp [tokenSplit, hb, h1, h2]
+
+/-- where `expr::amount` stops on a text that begins with a printed number -/
+theorem amount_rest {d : PDec} (hd : wfNumber d = true) {X rest' : List Char} {v : VExpr}
+    (h : amount (printPDec d ++ X) = .ok v rest') :
+    rest' = (skipSpaces (X.dropWhile isNumChar)).dropWhile isCommodityChar := by
+  unfold amount prettyDecimal at h
+  rw [tokenSplit_shape_any (scan_ok_shape (wfNumber_scan hd)) X] at h
+  simp only at h
+  split at h
+  · rename_i d' rest0 hpd
+    split at hpd
+    · cases hpd
+      simp only [commodity] at h
+      cases h; rfl
+    · cases hpd
+  · cases h
+  · cases h
+
+/-- if the parser returns the tree and stops where `parse_print` says, the continuation was admissible -/
+theorem follow_necessary (v : VExpr) (rest : List Char) (hw : wfVExpr v = true)
+    (h : parseValueExpr (printVExpr noPrec v ++ rest) = .ok v (afterV v rest)) : follow v rest = true := by
+  cases v with
+  | paren e => rfl
+  | amt d c =>
+    simp only [wfVExpr, Bool.and_eq_true] at hw
+    obtain ⟨hd, hc⟩ := hw
+    simp only [isCommodityText, List.all_eq_true] at hc
+    rw [printVExpr_amt, displayRescale_noPrec] at h
+    obtain ⟨a, cs, he, hcl, _⟩ := amtText_head c hd
+    unfold parseValueExpr at h
+    obtain ⟨g, hg⟩ : ∃ g, parseFuel (amtText d c ++ rest) = g + 1 := ⟨_, by simp only [parseFuel]; rfl⟩
+    rw [hg, he, List.cons_append, valueExpr_amount g _ (head_class hcl).2, ← List.cons_append, ← he] at h
+    simp only [follow, bareV, afterV, tokFollow] at h ⊢
+    by_cases hemp : c.isEmpty = true
+    · simp only [amtText, hemp, if_true, after] at h ⊢
+      have hr := amount_rest hd h
+      cases rest with
+      | nil => rfl
+      | cons x r =>
+        cases hx : isNumChar x with
+        | true =>
+          exfalso
+          have hsk : skipSpaces (x :: r) = x :: r := skipSpaces_cons_nonspace r (numChar_not_space hx)
+          rw [hsk] at hr
+          have h1 := length_dropWhile_le isCommodityChar (skipSpaces ((x :: r).dropWhile isNumChar))
+          have h2 := length_dropWhile_le isSpace ((x :: r).dropWhile isNumChar)
+          have h3 := length_dropWhile_le isNumChar r
+          rw [← hr] at h1
+          simp only [List.dropWhile, hx, skipSpaces, List.length_cons] at h1 h2
+          omega
+        | false =>
+          simp only [List.dropWhile, hx] at hr
+          simp only [stops_cons, hx, Bool.not_false, Bool.true_and]
+          exact stops_of_dropWhile_eq hr.symm
+    · simp only [amtText, hemp, Bool.false_eq_true, if_false, after, List.append_assoc, List.cons_append] at h ⊢
+      have hr := amount_rest hd h
+      have hne : c.toList ≠ [] := by intro e; exact hemp (by simpa using e)
+      have hsk : skipSpaces (c.toList ++ rest) = c.toList ++ rest := by
+        cases hl : c.toList with
+        | nil => exact absurd hl hne
+        | cons b t => exact skipSpaces_cons_nonspace _ (commodityChar_not_space (hc b (by simp [hl])))
+      have hnum : isNumChar ' ' = false := by decide
+      simp only [List.dropWhile, hnum, skipSpaces_cons_space, hsk, dropWhile_append_all hc] at hr
+      exact stops_of_dropWhile_eq hr.symm
+
+/-- **exactly what the parser needs**: for a well-formed plain tree, the parser returns the tree and stops at the
+continuation (less the blanks eaten after a bare number) if and only if the continuation does not extend the last
+token -/
+theorem parse_print_iff (v : VExpr) (rest : List Char) (hw : wfVExpr v = true) (hp : plainV v = true) :
+    parseValueExpr (printVExpr noPrec v ++ rest) = .ok v (afterV v rest) ↔ follow v rest = true :=
+  ⟨follow_necessary v rest hw, parse_print v rest hw hp⟩
+
+/-! ## rescaling keeps the sign, hence plainness -/
+
+theorem rescale_neg (d : PDec) (n : Nat) : (rescale d n).neg = d.neg := by
+  unfold rescale
+  split
+  · rfl
+  · split
+    · rfl
+    · split <;> rfl
+
+theorem unsignedV_rescale (p : String → Nat) (v : VExpr) : unsignedV (rescaleV p v) = unsignedV v := by
+  cases v with
+  | paren e => simp only [rescaleV, unsignedV]
+  | amt d c => simp only [rescaleV, unsignedV, displayRescale, rescale_neg]
+
+mutual
+theorem plainE_rescale (p : String → Nat) : ∀ e : Expr, plainE (rescaleE p e) = plainE e
+  | .neg (.val v) => by simp only [rescaleE, plainE, plainV_rescale p v]
+  | .neg (.neg e) => by
+    have := plainE_rescale p (.neg e)
+    simp only [rescaleE] at this
+    simp only [rescaleE, plainE, this]
+  | .neg (.bin op l r) => by
+    simp only [rescaleE, plainE, plainE_rescale p l, plainE_rescale p r]
+  | .bin op l r => by simp only [rescaleE, plainE, plainE_rescale p l, plainE_rescale p r]
+  | .val v => by simp only [rescaleE, plainE, unsignedV_rescale, plainV_rescale p v]
+theorem plainV_rescale (p : String → Nat) : ∀ v : VExpr, plainV (rescaleV p v) = plainV v
+  | .paren e => by simp only [rescaleV, plainV, plainE_rescale p e]
+  | .amt d c => by simp only [rescaleV, plainV]
+end
+
+/-- `parse_print_prec` with plainness asked of the tree itself -/
+theorem parse_print_prec' (p : String → Nat) (v : VExpr) (rest : List Char) (hw : wfVExpr (rescaleV p v) = true)
+    (hp : plainV v = true) (hf : follow v rest = true) :
+    parseValueExpr (printVExpr p v ++ rest) = .ok (rescaleV p v) (afterV v rest) :=
+  parse_print_prec p v rest hw (by rw [plainV_rescale]; exact hp) hf
 
 end Okane.ExprParse
